@@ -635,9 +635,13 @@ class SysEngine(MempoolEngine):
             return
         self.uw = UndoWindow(w, c.get('reorg_limit', 5))
         self.uw.note_daemon_tip()
+        if c.get('family'):
+            self.bump('family:' + c['family'])
         lp = c.get('longpark')
         if lp:
             # long-park policy: a client read job may stay descheduled across whole polls and refreshes
+            held_tasks = set()
+
             def on_submit(job):
                 if self.quiescing:
                     return      # the judging phase itself must not be held back
@@ -656,7 +660,11 @@ class SysEngine(MempoolEngine):
                     while f is not None and not inside:
                         inside = f.f_code.co_name in under
                         f = f.f_back
-                    if inside and rng.random() < lp:
+                    # only the first such read of a request: its retry (after the truncation it slept through) runs at once,
+                    # i.e. while the blocks are still undone
+                    first = id(t) not in held_tasks
+                    if inside and first and rng.random() < lp:
+                        held_tasks.add(id(t))
                         job.longpark = 'start'
                         job.park_secs = rng.choice((4, 8, 12, 16, 22))
                         self.bump('jobs_held_at_start')
@@ -696,6 +704,9 @@ class SysEngine(MempoolEngine):
                         for dh in (0, 1):
                             for qk in ('id_from_pos_merkle', 'get_merkle', 'id_from_pos'):
                                 asyncio.ensure_future(self.query(qk, self.querier, at=('height', h - dh)))
+                        # ... and by-script reads, which resolve tx numbers of the blocks about to be undone
+                        for qk in ('get_history', 'listunspent', 'get_history', 'get_balance', 'listunspent', 'get_history'):
+                            asyncio.ensure_future(self.query(qk, self.querier))
             loop.gex.on_submit = on_submit_b
         loop.hooks.append(self.db_height_hook)
         self.scripts = [s for s in w.scripts if not unspendable(s, 10 ** 9, w.activation) and s[:1] != b'\x6a'][:c.get('nscripts', 8)]
